@@ -70,6 +70,29 @@ Fixpoint la_run (a : larch) (cs : list lacall) : res larch :=
   | c :: r => match la_step a c with Ok a' => la_run a' r | Er e => Er e end
   end.
 
+(* a history in which the caller catches the rejections and goes on with the same builder object: a rejected call leaves the
+   definition as it was; the flags say which calls were accepted *)
+Fixpoint la_run_lenient (a : larch) (cs : list lacall) : larch * list bool :=
+  match cs with
+  | [] => (a, [])
+  | c :: r =>
+    match la_step a c with
+    | Ok a' => let p := la_run_lenient a' r in (fst p, true :: snd p)
+    | Er _ => let p := la_run_lenient a r in (fst p, false :: snd p)
+    end
+  end.
+
+(* the calls of a history that were accepted *)
+Fixpoint accepted_calls (a : larch) (cs : list lacall) : list lacall :=
+  match cs with
+  | [] => []
+  | c :: r =>
+    match la_step a c with
+    | Ok a' => c :: accepted_calls a' r
+    | Er _ => accepted_calls a r
+    end
+  end.
+
 (* ---- LayerRule builder ---- *)
 Inductive lrcall :=
   | LRBasedOn (a : larch)
